@@ -276,6 +276,13 @@ func init() {
 			}
 			return s
 		},
+		// unsafe []byte<->string casts of tinylib/msgp (purego.go states the meaning)
+		"github.com/tinylib/msgp/msgp.UnsafeString": func(fr *frame, args []value) value {
+			return fr.i.mkStr(args[0].([]value))
+		},
+		"github.com/tinylib/msgp/msgp.UnsafeBytes": func(fr *frame, args []value) value {
+			return strBytes(args[0])
+		},
 		"internal/stringslite.Index": nil,
 		"strings.Index":              nil,
 		"bytes.Index":                nil,
